@@ -1,4 +1,5 @@
 //@ contract nitrogql_checker::type_system_checker ::fn check_schema
+//@   requires [C05.ts_schema.pre_schema_wf] crate::schema_wf(&definitions.type_system)
 //@   ensures [C05.ts_schema.frame] crate::extends_errs(old(result)@, final(result)@)
 //@   ensures [C05.ts_schema.sound] final(result)@.len() == old(result)@.len() ==> crate::valid_schema_def(d, definitions)
 //@   ensures [C05.ts_schema.complete] crate::valid_schema_def(d, definitions) ==> final(result)@.len() == old(result)@.len()
